@@ -30,7 +30,7 @@ SUPPORTED = ["root", "key_mgr"]
 def run(ctx, deps=True):
     eng, prog = ctx.eng, ctx.prog
     ctx.assume("A1", "A3", "exact value grammar of int(x) == x and strptime beyond the conjunct structure (see C15 and the residual list)")
-    sm = eng.walk("common.checkformat_delegating_metadata")
+    sm = eng.walk_whole("common.checkformat_delegating_metadata", parts=("signed",))
     site = fn_site(eng, sm)
     m = P(sm.params[0])
     s = SubC(m, "signed")
@@ -125,9 +125,11 @@ def run(ctx, deps=True):
         if q in priv:
             continue  # analysed in place as part of the checker
         if kind == "envelope":
-            from .c15 import raiser_exact
+            from .c15 import predicate_exact, raiser_exact
 
-            ok, why = raiser_exact(eng, q, "envelope")
+            smq = eng.summary(eng.prog.funcs[q], None)
+            is_pred = any(p.kind == "return" and p.value == C(False) for p in smq.paths)
+            ok, why = (predicate_exact if is_pred else raiser_exact)(eng, q, "envelope")
             detail = {"deviation": why}
         else:
             ok, detail = function_decides(eng, q, kind)
